@@ -6,6 +6,7 @@ import json
 import os
 import re
 import shutil
+import time
 import typing
 
 from tools.lib import core
@@ -207,7 +208,8 @@ def job_of(case: dict, work: str, rng) -> dict:
         rng.shuffle(cands)
         probes = cands[:case.get('n_probes', 2)]
         if case['tpl'] == 'copy+nested':      # every nested file is edited once
-            probes = [dict(p) for p in NESTED_PROBES] + probes[:1]
+            nested = [dict(p) for p in NESTED_PROBES]
+            probes = (nested if case['tag'] == 'nested-templates' else rng.sample(nested, 2)) + probes[:1]
     elif isinstance(case['probes'], list):
         probes = case['probes']
     return {'work': work, 'files': files, 'appends': appends, 'copies': copies, 'args': args, 'root': root_dir, 'lookups': lk_dirs, 'probes': probes,
@@ -400,6 +402,7 @@ def main(chk: core.Check, replay: typing.Optional[str] = None) -> int:
     if not res.ok:
         broken.append('proof obligation: %s %s' % (res.failed_file or 'translator', res.failed_theorem or ''))
 
+    t_coq = time.time() - chk.t0
     # 2. the implementation in four modes
     scratch = core.scratch('nnvverif-c08-')
     jobs = [job_of(c, os.path.join(scratch, 'case%d' % c['idx']), rng) for c in cases]
@@ -414,6 +417,7 @@ def main(chk: core.Check, replay: typing.Optional[str] = None) -> int:
                     except OSError:
                         pass
 
+    t_impl = time.time() - chk.t0 - t_coq
     # 3. the model on the same cases
     model, merr = (None, 'model not built')
     if os.path.exists(os.path.join(core.COQ, 'theories', 'Generated', 'Gen_Listing.vo')) and res.translators_ok:
@@ -421,6 +425,8 @@ def main(chk: core.Check, replay: typing.Optional[str] = None) -> int:
     if model is None:
         broken.append('model cannot be evaluated: ' + merr)
 
+    chk.notes.append('phases: coq (incl. waiting for the shared build lock) %.0fs, implementation %.0fs, model %.0fs'
+                     % (t_coq, t_impl, time.time() - chk.t0 - t_coq - t_impl))
     # 4. known findings: probe the witnesses on the implementation
     live = {}
     for i, c in enumerate(cases):
